@@ -300,7 +300,10 @@ def r2_complete(ctx) -> None:
             continue
         # properties that guard each field
         guards = {}
-        for name, m in c.methods.items():
+        visible = {}
+        for k_ in reversed(c.mro):      # (an accessor shared through a mixin guards the field just the same)
+            visible.update(k_.methods)
+        for name, m in visible.items():
             rb = real_body(m)
             if len(rb) == 1 and isinstance(rb[0], ast.Return) and isinstance(rb[0].value, ast.Call) and u(rb[0].value.func) == "_check_complete" \
                     and len(rb[0].value.args) == 2 and u(rb[0].value.args[1]).startswith("self._"):
